@@ -10,7 +10,7 @@
 import ast
 
 from ..loader import AnalysisError, dotted, ClassInfo
-from ..astutil import walk_own, calls_in, norm, Defs, leaves, stmt_of, kwarg, need, returns_of
+from ..astutil import walk_own, calls_in, norm, Defs, leaves, stmt_of, kwarg, need, returns_of, expand
 from .. import cfg as cfgmod
 from ..effects import get_effects
 from ..variants import Witness
@@ -211,6 +211,40 @@ def rule_r3(p, res):
     r.check(norm(returns_of(gt.node)[0].value) == "self._landmarks", gt, gt.node, "the landmarks getter returns the owned manager")
 
 
+def rule_r6(p, res):
+    r = res.rule("C06.R6", "array-valued property setters copy the assigned value into storage the object owns (no aliasing of the caller's array)")
+    n = 0
+    for c in p.classes.values():
+        for name, f in sorted(c.setters.items()):
+            if len(f.params) < 2:
+                continue
+            val = f.params[1]
+            # array / shape evidence: the setter inspects the value's shape
+            ev = [x for x in ast.walk(f.node) if isinstance(x, ast.Attribute) and isinstance(x.value, ast.Name) and x.value.id == val and x.attr in ("shape", "dtype", "ndim")]
+            if not ev:
+                continue
+            n += 1
+            r.instance(f)
+            d = Defs(f.node)
+            owned = False
+            for st in walk_own(f.node):
+                if isinstance(st, ast.Assign) and isinstance(st.targets[0], ast.Attribute) and norm(st.targets[0].value) == "self" and ("param:" + val) in leaves(st.value, d):
+                    v = expand(st.value, d)
+                    fresh = isinstance(v, ast.Call) and ((isinstance(v.func, ast.Attribute) and v.func.attr in ("copy", "astype")) or (dotted(v.func) or "") in ("np.array", "np.copy", "numpy.array", "numpy.copy"))
+                    r.check(fresh, f, st, "the %s setter of %s stores the caller's array itself (`%s`): two objects assigned the same array (or a copy assigned its original's array) then share "
+                            "their data, and an in-place edit of one shows in the other" % (name, c.name, norm(st)[:60]), {"setter": f.short, "stored": norm(st.value)[:50]})
+                    owned = owned or fresh
+                elif isinstance(st, ast.Expr) and isinstance(st.value, ast.Call) and (dotted(st.value.func) or "") in ("np.copyto", "numpy.copyto"):
+                    a_ = st.value.args
+                    ok = len(a_) >= 2 and norm(a_[0]).startswith("self.") and ("param:" + val) in leaves(a_[1], d)
+                    r.check(ok, f, st, "np.copyto in the %s setter must copy the assigned value into the object's own array" % name, {"setter": f.short, "copied_into": norm(a_[0]) if a_ else None})
+                    owned = owned or ok
+            if not owned and not any(fd.rule == "C06.R6" and fd.construct == f.qualname for fd in res.findings):
+                raise AnalysisError("C06.R6: cannot see how the %s setter of %s stores its value" % (name, c.name))
+    if n < 2:
+        raise AnalysisError("C06.R6: only %d array-valued setters found (floor 2)" % n)
+
+
 def _conjuncts(t):
     if isinstance(t, ast.BoolOp) and isinstance(t.op, ast.And):
         return sorted(str(norm(v)) for v in t.values)
@@ -311,7 +345,7 @@ def rule_r5(p, res):
         raise AnalysisError("C06.R5: only %d writes of owned attributes found (floor 12)" % n_writes)
 
 
-RULES = [rule_r1, rule_r2, rule_r3, rule_r4, rule_r5]
+RULES = [rule_r1, rule_r2, rule_r3, rule_r4, rule_r5, rule_r6]
 
 WITNESSES = [
     Witness("C06.W1", "menpo/landmark/base.py", "LandmarkManager.copy", "for k, v in new._landmark_groups.items():\n        new._landmark_groups[k] = v.copy()", "pass",
@@ -330,4 +364,10 @@ WITNESSES = [
     Witness("C06.W11", "menpo/landmark/base.py", "LandmarkManager.__setitem__", "n_dims = self.n_dims", "n_dims = self.n_dims if group not in self._landmark_groups else None",
             rule="C06.R4", construct="__setitem__", note="seeded change R2-C06-A"),
     Witness("C06.T1", "menpo/landmark/base.py", "LandmarkManager.__setitem__", "lmark_group = value.copy()\n    self._landmark_groups[group] = lmark_group", "self._landmark_groups[group] = value.copy()", kind="T"),
+]
+
+WITNESSES += [
+    Witness("C06.W12", "menpo/model/linear.py", "LinearVectorModel.components", "np.copyto(self._components, value, casting='safe')", "self._components = value",
+            rule="C06.R6", construct="LinearVectorModel.components", note="seeded change R3-C06-C"),
+    Witness("C06.T2", "menpo/model/linear.py", "LinearVectorModel.components", "np.copyto(self._components, value, casting='safe')", "self._components = value.copy()", kind="T", note="not identical behaviour (rebinds) but still an owned copy: the rule must accept it"),
 ]
